@@ -65,6 +65,7 @@ RULE = (
     "modes (mesh+locations_final, built-in velocity gradient callable+locations_initial, "
     "pathline files) x 3 phase lists x fabric A-E; block inputs: every built-in velocity "
     "callable, pathline file kinds (npz / npz+scsv / scsv), relative and absolute file names. "
+    "phases declared by ordinal (5 lists incl. mixed name/ordinal) x modes x fabric(2) x 6 omission sets: ConfigError or a parse satisfying every clause; "
     "faults: single-fault list x modes x phase lists, each must raise ConfigError. A config case "
     "is non-trivial when at least one key is omitted or faulted; distinct = distinct generated "
     "TOML text (mode, omitted set, phases, fabric, edit)."
@@ -99,7 +100,19 @@ PHASE_DEFS = {
     "ol_en": (["olivine", "enstatite"], [0.7, 0.3]),
     "en_ol": (["enstatite", "olivine"], [0.3, 0.7]),
     "en": (["enstatite"], [1.0]),  # context of the fault list only
+    # phases given by ordinal (the phase parser is declared for str | MineralPhase | int)
+    "ol#": ([0], [1.0]),
+    "ol_en#": ([0, 1], [0.7, 0.3]),
+    "en_ol#": ([1, 0], [0.3, 0.7]),
+    "ol_en#mix": (["olivine", 1], [0.7, 0.3]),
+    "en_ol#mix": ([1, "olivine"], [0.3, 0.7]),
 }
+ORD_PHASES = ["ol#", "ol_en#", "en_ol#", "ol_en#mix", "en_ol#mix"]
+ORD_NAMES = {0: "olivine", 1: "enstatite"}
+
+
+def _is_ord(x):
+    return isinstance(x, int) and not isinstance(x, bool) and x in ORD_NAMES
 PHASES = ["ol", "ol_en", "en_ol"]
 FABRICS = ["A", "B", "C", "D", "E"]
 OUT_KEYS = ["directory", "raw_output", "diagnostics", "anisotropy", "paths", "log_level"]
@@ -413,6 +426,7 @@ def template_input(mode, vg="simple_shear_2d", pf="npz", mesh="tiny_rel"):
 
 def template_output(ph):
     names = PHASE_DEFS[ph][0] if isinstance(ph, str) else ph[0]
+    names = [ORD_NAMES[x] if _is_ord(x) else x for x in names]
     return {
         "directory": "out/run",
         "raw_output": list(names),
@@ -464,6 +478,8 @@ def reference(model):
         return "ConfigError", "fraction_sum"
     if len(phases) != len(fracs):
         return "ConfigError", "unequal_lengths"
+    ordinal = any(_is_ord(x) for x in phases)
+    phases = [ORD_NAMES[x] if _is_ord(x) else x for x in phases]
     for x in phases:
         if not (isinstance(x, str) and x in valid):
             return "ConfigError", "unknown_phase"
@@ -477,6 +493,10 @@ def reference(model):
         for x in out.get(level, []):
             if x not in phases:
                 return "ConfigError", "output_phase_not_simulated"
+    if ordinal:
+        # the statement does not say whether ordinals are accepted: either the configuration
+        # error, or a parse that satisfies every clause (enumeration-typed phases included)
+        return "either", None
     return "ok", None
 
 
@@ -640,6 +660,17 @@ def run_config(acc, spec, faultinfo=None):
             close_cfg(got)
         return status
 
+    if want == "either" and status != "ok":
+        acc.clause("constraint")
+        if status != "ConfigError":
+            acc.viol(
+                "constraint",
+                {"part": "config", "reason": "ordinal_phases", "omitted": "+".join(omitted) or "(none)", "form": "raises_" + status},
+                {"context": ctx, "message": short(got, 200), "toml": text[:1500]},
+            )
+        else:
+            acc.note("ordinal_phases_rejected")
+        return status
     # ---- the configuration is valid: it must parse
     acc.clause("parses")
     if status != "ok":
@@ -720,7 +751,7 @@ def judge_ok(acc, spec, model, cfg, ctx, text):
         if name in prm_model:
             given = prm_model[name]
             if name == "phase_assemblage":
-                exp = tuple(p.MineralPhase[x] for x in given)
+                exp = tuple(p.MineralPhase(x) if _is_ord(x) else p.MineralPhase[x] for x in given)
             elif name == "initial_olivine_fabric":
                 exp = p.MineralFabric["olivine_" + given]
             else:
@@ -1097,6 +1128,15 @@ def run_block_edge(key):
     return acc.done({"case": key, "configs": acc.res["n"]})
 
 
+def run_block_ordinal(key):
+    acc = Acc(key)
+    allout = ["output." + k for k in OUT_KEYS]
+    for fab in ("A", "C"):
+        for om in ([], ["output.raw_output"], ["output.diagnostics"], ["output.raw_output", "output.diagnostics"], allout + ["top.[output]"], ["parameters.phase_fractions"] if key["ph"] == "ol#" else ["top.name"]):
+            run_config(acc, {"mode": key["mode"], "ph": key["ph"], "fab": fab, "omit": list(om)})
+    return acc.done({"case": key, "configs": acc.res["n"]})
+
+
 def run_block_inputs(key):
     acc = Acc(key)
     for ph in PHASES:
@@ -1399,6 +1439,10 @@ def gen_cases(tier, seed):
     for mode in MODES:
         for name, val in EDGE_VALUES:
             keys.append({"part": "config", "block": "edge", "mode": mode, "name": name, "val": repr(val)})
+    # phases declared by ordinal
+    for mode in MODES:
+        for ph in ORD_PHASES:
+            keys.append({"part": "config", "block": "ordinal", "mode": mode, "ph": ph})
     keys.append({"part": "records", "cls": "DefaultParams"})
     for cname in preset_classes():
         keys.append({"part": "records", "cls": cname, "preset": 1})
@@ -1428,6 +1472,8 @@ def run_case(key):
         return run_block_edge(key)
     if key["block"] == "inputs":
         return run_block_inputs(key)
+    if key["block"] == "ordinal":
+        return run_block_ordinal(key)
     if key["block"] == "out":
         return run_block_out(key)
     if key["block"] == "prm":
